@@ -112,6 +112,8 @@ type pctx struct {
 	errStr  map[string]uint64
 	strIDs  map[string]uint64
 	stop    bool // deadline reached
+	// panics of the current HTTP path: site -> method -> best violation
+	httpPanics map[string]map[string]ranked
 	tick    int
 }
 
@@ -1304,6 +1306,7 @@ func rtcpBases(lsr uint32) []rtcpBase {
 	out = append(out, rtcpBase{"REMB-max", big})
 	add("NACK0", &rtcp.TransportLayerNack{SenderSSRC: 1, MediaSSRC: fwd.DownSSRC})
 	add("SDES0", &rtcp.SourceDescription{})
+	add("SDES-chunk-without-items", &rtcp.SourceDescription{Chunks: []rtcp.SourceDescriptionChunk{{Source: fwd.UpSSRC}, {Source: fwd.DownSSRC}}})
 	add("SDES-emptycname", &rtcp.SourceDescription{Chunks: []rtcp.SourceDescriptionChunk{{Source: fwd.UpSSRC,
 		Items: []rtcp.SourceDescriptionItem{{Type: rtcp.SDESCNAME, Text: ""}}}}})
 	add("BYE", &rtcp.Goodbye{Sources: []uint32{fwd.DownSSRC, 2}, Reason: "bye"})
